@@ -279,8 +279,19 @@ def json_object_is_row(ctx, rule='R16j'):
                 val_ = stores[0].value
                 okg = pseudo(stores[0].targets[0].slice) == kv and \
                     ((vv is not None and pseudo(val_) == vv) or u(_rh(val_)) == '%s[%s]' % (gp, kv))
+        # ... and every row becomes one feature: on every path through the method the feature is handed to the JSON writer exactly once
+        from sa.paths import Enumerator as _Eng
+        for p_ in _Eng(where=gw.qualname).paths(gw.node.body):
+            if p_.term == 'raise':
+                continue
+            calls_ = [c for it_ in p_.items if it_.kind in ('stmt', 'return') and isinstance(it_.node, ast.AST) for c in ast.walk(it_.node)
+                      if isinstance(c, ast.Call) and isinstance(c.func, ast.Attribute) and c.func.attr in ('write_transformed_row', 'write_object')]
+            calls_ += [c for it_ in p_.items if it_.kind in ('stmt', 'return') and isinstance(it_.node, ast.AST) for c in ast.walk(it_.node)
+                       if isinstance(c, ast.Call) and u(c.func) in ('json.dumps', 'json.dump')]
+            okg = okg and len(calls_) == 1
         run.check(okg, rule, gw.where, g.qualname, 'properties[k] = v for the entries of the transformed row (geometry apart)',
-                  'the properties of a GeoJSON feature are not the entries of the transformed row under their field names')
+                  'the properties of a GeoJSON feature are not the entries of the transformed row under their field names, or a row is '
+                  'not written as exactly one feature on some path (it is still counted)')
 
 
 def observer_completes(ctx, rule='R6d'):
